@@ -77,14 +77,18 @@ def c5 (i : Inst) : Bool :=
     | none => false
     | some r => r.tsStart == c.tsStart && r.tsEnd == c.tsEnd && r.wins == c.wins
 
-/-- c6 (prune off): every vertex that finishes before a supervisor step of the horizon starts is scheduled -/
+/-- c6 (prune off): every vertex that finishes before a supervisor step of the horizon starts is scheduled. The
+supervisor's own steps are excluded: which of them run is fixed by c4 (step p closes partition p), and a zero-duration
+supervisor step *beyond* the horizon can end at the very time an earlier step of the horizon starts without being
+owed a slot. -/
 def c6 (i : Inst) : Bool :=
   i.prune ||
   i.verts.all fun r =>
-    ((List.range i.parts).any fun p =>
+    r.v.kind == i.sup ||
+    decide (((List.range i.parts).any fun p =>
       match i.row? ⟨i.sup, p⟩ with
       | some s => r.tsEnd ≤ s.tsStart
-      | none => false) → i.sched.any fun c => c.v == r.v
+      | none => false) → i.sched.any fun c => c.v == r.v)
 
 /-- c7: within one generation of one partition no two runnable cells have the same kind (per-kind overwrite of the executor) -/
 def c7 (i : Inst) : Bool :=
